@@ -712,7 +712,36 @@ type fieldOf struct {
 // loadField: the term of the single value stored into the field of a local struct that is never stored as a whole
 // (nil when that does not hold).
 func (tb *TermBuilder) loadField(f *fieldOf, before ssa.Instruction) *Term {
-	if len(tb.stores[f.X]) != 0 || !localOnly(f.X) {
+	return tb.loadFieldDepth(f, before, 0)
+}
+
+func (tb *TermBuilder) loadFieldDepth(f *fieldOf, before ssa.Instruction, depth int) *Term {
+	if !localOnly(f.X) || depth > 4 {
+		return nil
+	}
+	if whole := tb.stores[f.X]; len(whole) == 1 {
+		// itself a copy of another local struct (x := y; z := x): follow the chain, provided no field of it is
+		// stored separately and the copy happens before the read
+		ld, isLd := whole[0].Val.(*ssa.UnOp)
+		if !isLd || ld.Op != token.MUL || !precedes(whole[0], before) {
+			return nil
+		}
+		src, isAl := tb.Strip(ld.X).(*ssa.Alloc)
+		if !isAl || src == f.X {
+			return nil
+		}
+		for _, blk := range tb.Fn.Blocks {
+			for _, ins := range blk.Instrs {
+				if st, ok := ins.(*ssa.Store); ok {
+					if fa, ok := st.Addr.(*ssa.FieldAddr); ok && mayBe(fa.X, f.X, 0) {
+						return nil
+					}
+				}
+			}
+		}
+		return tb.loadFieldDepth(&fieldOf{X: src, Field: f.Field}, ld, depth+1)
+	}
+	if len(tb.stores[f.X]) != 0 {
 		return nil
 	}
 	var only *ssa.Store
